@@ -285,6 +285,39 @@ def deepCopy (src : JVal) (dst : Option JVal) : Outcome CopyRes :=
       let c ← copyRec src
       pure ⟨0, some c, .none⟩
 
+/-! ### trees the public API builds; node identities -/
+
+/-- trees obtained from the constructors of the public API -/
+inductive Built : JVal → Prop
+  | null : Built .null
+  | boolean (b : Bool) : Built (.bool b)                                         -- json_object_new_boolean
+  | int64 (v : Int) (h : INT64_MIN ≤ v ∧ v ≤ INT64_MAX) : Built (.int true v)    -- json_object_new_int64
+  | uint64 (v : Int) (h : 0 ≤ v ∧ v ≤ UINT64_MAX) : Built (.int false v)         -- json_object_new_uint64
+  | double (bits : UInt64) : Built (.dbl bits none)                              -- json_object_new_double
+  | doubleS (bits : UInt64) (t : Bytes) (h : nulFree t = true) : Built (.dbl bits (some t))  -- json_object_new_double_s
+  | string (s : Bytes) : Built (.str s)                                          -- json_object_new_string_len
+  | newArray : Built (.arr [])                                                   -- json_object_new_array
+  | arrayAdd (xs : List JVal) (x : JVal) : Built (.arr xs) → Built x → Built (.arr (xs ++ [x]))
+  | newObject : Built (.obj [])                                                  -- json_object_new_object
+  | objectAdd (m : List (Bytes × JVal)) (k : Bytes) (v : JVal) :                 -- json_object_object_add, any key
+      Built (.obj m) → Built v → Built (.obj (objAdd m k v))
+
+/-- identities of the non-NULL nodes of a tree whose root node is `root` (identity = root + position) -/
+def nodeIds (root : Nat) (v : JVal) : List (Nat × Pos) :=
+  go root [] v
+where
+  go (root : Nat) (p : Pos) : JVal → List (Nat × Pos)
+    | .null => []
+    | .arr xs => (root, p) :: goList root p 0 xs
+    | .obj kvs => (root, p) :: goMembers root p 0 kvs
+    | _ => [(root, p)]
+  goList (root : Nat) (p : Pos) (i : Nat) : List JVal → List (Nat × Pos)
+    | [] => []
+    | x :: xs => go root (p ++ [i]) x ++ goList root p (i + 1) xs
+  goMembers (root : Nat) (p : Pos) (i : Nat) : List (Bytes × JVal) → List (Nat × Pos)
+    | [] => []
+    | (_, v) :: kvs => go root (p ++ [i]) v ++ goMembers root p (i + 1) kvs
+
 /-! ### mutation probes used by the correspondence run (`copymut`) -/
 
 inductive Mut where
